@@ -21,6 +21,7 @@ type ctxState struct {
 	deadline Value // time.Time
 	dlMs     int64 // the deadline on the virtual clock (unix ms); -1 when not concrete
 	key, val Value
+	otelSpan Value // trace.SpanContext put there by trace.ContextWithSpanContext
 	kt       types.Type
 	children []*ctxState
 }
@@ -206,6 +207,25 @@ func init() {
 		add := in.findMethod(in.world.namedType("time", "Time"), "Add")
 		in.ctxSetDeadline(fr, s, a[0].(IfaceV), in.callFn(fr, add, []Value{now, a[1]}, nil))
 		return TupleV{v, cancelFunc(s, false)}
+	}
+	// OpenTelemetry's span-in-context plumbing (the rest of otel is stubbed): a span context stored
+	// in a context is found again by SpanContextFromContext through native child contexts
+	withSpan := func(in *Interp, fr *frame, a []Value) Value {
+		s, v := in.newCtx(a[0].(IfaceV))
+		s.otelSpan = a[1]
+		return v
+	}
+	n["go.opentelemetry.io/otel/trace.ContextWithSpanContext"] = withSpan
+	n["go.opentelemetry.io/otel/trace.ContextWithRemoteSpanContext"] = withSpan
+	n["go.opentelemetry.io/otel/trace.SpanContextFromContext"] = func(in *Interp, fr *frame, a []Value) Value {
+		if c, ok := a[0].(IfaceV); ok && c.T != nil {
+			for s := in.ctxOf(c.V); s != nil; s = s.pstate {
+				if s.otelSpan != nil {
+					return s.otelSpan
+				}
+			}
+		}
+		return in.zero(in.world.namedType("go.opentelemetry.io/otel/trace", "SpanContext"))
 	}
 	n["context.WithValue"] = func(in *Interp, fr *frame, a []Value) Value {
 		s, v := in.newCtx(a[0].(IfaceV))
